@@ -20,6 +20,7 @@ type scenario struct {
 	parents [][]Msg
 	sched   []Step
 	key     string
+	barrier bool // wall-clock driven barrier nodes upstream: own trace file, verdict level only
 }
 
 // nonDecSeqs: every non-decreasing sequence of length n over 1..tmax.
@@ -403,7 +404,40 @@ func build(r *rt.Run) (scs []scenario, exhaustive bool, extra map[string]any) {
 		}
 	}
 
+	// barriers (join only): each parent sits behind barrier().idle(100ms); the driver pauses at random
+	// positions so that idle barriers reach the join between deliveries.  Times are 1000 units apart and
+	// strictly increasing per parent, so every barrier (last time + k*100ms) is truthful whatever the
+	// pause really took.  Checked at verdict level only: no node failure, outputs = reference.
+	barrierRuns := func(c Cfg, count int) {
+		c.Barrier = true
+		for i := 0; i < count; i++ {
+			ps := make([][]Msg, c.N)
+			for s := range ps {
+				n := 1 + rnd.Intn(3)
+				ts := make([]int, n)
+				t := 0
+				for k := range ts {
+					t += 1 + rnd.Intn(2)
+					ts[k] = t * 1000
+				}
+				ps[s] = mkParent(s, ts, single("x"))
+			}
+			sched := randomSchedule(rnd, lensOf(ps))
+			var out []Step
+			for _, st := range sched {
+				out = append(out, st)
+				if rnd.Intn(3) == 0 {
+					out = append(out, Step{SleepMs: 250})
+				}
+			}
+			out = append(out, Step{SleepMs: 250})
+			scs = append(scs, scenario{c: c, parents: ps, sched: out, key: c.String() + inputKey(ps) + "/" + schedKey(sched) + fmt.Sprint(i), barrier: true})
+		}
+	}
+
 	if !r.Thorough() {
+		barrierRuns(Cfg{Kind: "join", Edge: "stream", N: 2, Fill: "null", Tol: 0}, 8)
+		barrierRuns(Cfg{Kind: "join", Edge: "stream", N: 2, Fill: "none", Tol: 0}, 8)
 		for _, c := range joinCfgs("stream", 2) {
 			allFor(c, 2, 0)
 			onFor(c, 2, 16)
@@ -429,6 +463,12 @@ func build(r *rt.Run) (scs []scenario, exhaustive bool, extra map[string]any) {
 		extra["bounds"] = "2 parents x <=2 messages (times 1..3, duplicates, gaps, silent parent) x all interleavings for fill x tolerance; 3 parents x <=1; batch sampled"
 		return scs, false, extra // join.on and batch inputs are sampled in this tier
 	}
+	for _, c := range joinCfgs("stream", 2) {
+		if c.Tol == 0 {
+			barrierRuns(c, 24)
+		}
+	}
+	barrierRuns(Cfg{Kind: "join", Edge: "stream", N: 3, Fill: "null", Tol: 0}, 24)
 	for _, c := range joinCfgs("stream", 2) {
 		allFor(c, 3, 0)
 		if c.Fill == "num" {
@@ -471,8 +511,10 @@ func Run(r *rt.Run) error {
 	scs, exhaustive, extra := build(r)
 	const workers = 8
 	traces := make([]*rt.Trace, workers)
+	btraces := make([]*rt.Trace, workers)
 	for w := range traces {
 		traces[w] = r.NewTrace(fmt.Sprintf("trace-w%d", w))
+		btraces[w] = r.NewTrace(fmt.Sprintf("barrier-w%d", w))
 	}
 	var wg sync.WaitGroup
 	errs := make([]error, workers)
@@ -488,13 +530,17 @@ func Run(r *rt.Run) error {
 			defer rn.close()
 			for i := w; i < len(scs); i += workers {
 				sc := scs[i]
-				rn.Run(traces[w], sc.c, sc.parents, sc.sched)
+				tr := traces[w]
+				if sc.barrier {
+					tr = btraces[w]
+				}
+				rn.Run(tr, sc.c, sc.parents, sc.sched)
 				total := 0
 				for _, p := range sc.parents {
 					total += len(p)
 				}
 				if total >= 2 {
-					traces[w].Distinct(sc.key)
+					tr.Distinct(sc.key)
 				}
 			}
 		}(w)
